@@ -13,7 +13,7 @@
    and flavour short of a COMMIT / RELEASE fault.  File maps are compared extensionally (`feq`: same content in every
    slot), because an undone Move ingest re-creates the staged file at the front of the association list. *)
 From Coq Require Import NArith List Bool.
-From V Require Import Model.Txn Model.TxnCheck Proofs.TxnProofs Proofs.TxnFiles Proofs.TxnProofsRm.
+From V Require Import Model.Txn Model.TxnCheck Proofs.TxnProofs Proofs.TxnFiles Proofs.TxnProofsRm Proofs.TxnProofsLo Proofs.TxnProofsLo2 Proofs.TxnProofsLo3.
 Import ListNotations.
 Open Scope N_scope.
 
@@ -245,6 +245,137 @@ Theorem trash_row_stuck_refuted_without_emptytrash_fix :
 Proof. exact trash_row_stuck_without_fix_p. Qed.
 Print Assumptions trash_row_stuck_refuted_without_emptytrash_fix.
 
+(* ======================================================================================================== *)
+(* Removals, DATASTORE side, for ANY number of stored datasets (Proofs/TxnProofsLo.v, Proofs/TxnProofsLo2.v).
+
+   Part 1 -- every start state (top level or inside open transactions), every fault position and flavour, any outcome:
+   a removal aimed at d leaves artifact, location row, datastore record and trash status of every OTHER dataset that
+   was not already in the trash exactly as they were ("never harms a dataset it did not target", datastore side). *)
+Theorem removal_never_harms_other_datasets_datastore : forall d s s' r x,
+  exec_op shipped (Purge d) s = (s', r) -> x <> d -> mem x (trash (cur s)) = false ->
+  fget x (fs s') = fget x (fs s) /\ mem x (loc (cur s')) = mem x (loc (cur s)) /\
+  mem x (recs (cur s')) = mem x (recs (cur s)) /\ mem x (trash (cur s')) = false.
+Proof. exact purge_bystanders_ds_p. Qed.
+Print Assumptions removal_never_harms_other_datasets_datastore.
+
+Theorem unstore_never_harms_other_datasets : forall d s s' r x,
+  exec_op shipped (Unstore d) s = (s', r) -> x <> d -> mem x (trash (cur s)) = false ->
+  fget x (fs s') = fget x (fs s) /\ mem x (loc (cur s')) = mem x (loc (cur s)) /\
+  mem x (recs (cur s')) = mem x (recs (cur s)) /\ mem x (trash (cur s')) = false.
+Proof. exact unstore_bystanders_ds_p. Qed.
+Print Assumptions unstore_never_harms_other_datasets.
+
+Theorem empty_trash_touches_only_trashed : forall s s' r x,
+  exec_op shipped EmptyTrash s = (s', r) -> mem x (trash (cur s)) = false ->
+  fget x (fs s') = fget x (fs s) /\ mem x (loc (cur s')) = mem x (loc (cur s)) /\
+  mem x (recs (cur s')) = mem x (recs (cur s)) /\ mem x (trash (cur s')) = false.
+Proof. exact empty_trash_bystanders_p. Qed.
+Print Assumptions empty_trash_touches_only_trashed.
+
+(* pruneDatasets(unstore) never changes datasets / tag rows / calibration rows, registers no undo entry, leaves the
+   staging area alone -- whatever the fault *)
+Theorem unstore_registry_untouched : forall d s s' r, exec_op shipped (Unstore d) s = (s', r) ->
+  ds (cur s') = ds (cur s) /\ tags (cur s') = tags (cur s) /\ certs (cur s') = certs (cur s) /\
+  ptr s' = ptr s /\ ext s' = ext s.
+Proof. exact unstore_registry_untouched_p. Qed.
+Print Assumptions unstore_registry_untouched.
+
+Theorem removal_registers_no_undo : forall d s s' r, exec_op shipped (Purge d) s = (s', r) -> ptr s' = ptr s /\ ext s' = ext s.
+Proof. exact removal_ptr_ext_p. Qed.
+Print Assumptions removal_registers_no_undo.
+
+(* Part 2 -- top level (no SQL transaction open), ANY tables and artifacts satisfying
+     DI s := every artifact has a datastore record /\ every record is located or trashed /\ every located dataset is
+             registered
+   (any number of stored, trashed, tagged datasets), a fault at ANY boundary, either flavour.
+   `honest s s' r` = NOT (r = Normal and the fault fired): the removal raised, or nothing fired.  The excluded case --
+   a fault fired and pruneDatasets nevertheless reported success -- is exactly the two swallowed-error findings
+   (leftovers_refuted_trash_insert_swallowed, leftovers_refuted_delete_error_swallowed; see
+   leftovers_guard_excludes_the_swallowed_errors below). *)
+Theorem removal_keeps_datastore_invariant : forall d s s' r,
+  sql s = [] -> DI s -> exec_op shipped (Purge d) s = (s', r) -> honest s s' r ->
+  DI s' /\ sql s' = [] /\ ((cur s' = cur s /\ fs s' = fs s) \/ mem d (ds (cur s')) = false).
+Proof. exact purge_DI_p. Qed.
+Print Assumptions removal_keeps_datastore_invariant.
+
+Theorem unstore_keeps_datastore_invariant : forall d s s' r,
+  sql s = [] -> DI s -> exec_op shipped (Unstore d) s = (s', r) -> honest s s' r -> DI s' /\ sql s' = [].
+Proof. exact unstore_DI_p. Qed.
+Print Assumptions unstore_keeps_datastore_invariant.
+
+Theorem empty_trash_keeps_datastore_invariant : forall s s' r,
+  sql s = [] -> DI s -> exec_op shipped EmptyTrash s = (s', r) -> honest s s' r -> DI s' /\ sql s' = [].
+Proof. exact empty_trash_DI_p. Qed.
+Print Assumptions empty_trash_keeps_datastore_invariant.
+
+(* from any DI state the next fault-free emptyTrash leaves only artifacts of located, registered, recorded datasets *)
+Theorem empty_trash_collects : forall s, sql s = [] -> DI s ->
+  DI (after_empty s) /\
+  forall x, fget x (fs (after_empty s)) <> None ->
+    mem x (loc (cur (after_empty s))) = true /\ mem x (ds (cur (after_empty s))) = true /\ mem x (recs (cur (after_empty s))) = true.
+Proof. exact after_empty_collects_p. Qed.
+Print Assumptions empty_trash_collects.
+
+(* --- leftovers_collected_by_empty_trash + removal_all_or_nothing (datastore side), FULL strength under the guard:
+   a purge that fails at any boundary (or runs fault-free): after the next emptyTrash every artifact under the root
+   belongs to a located, registered dataset; and either nothing changed at all, or the target is gone from the registry
+   and its artifact is gone after that emptyTrash *)
+Theorem leftovers_collected_by_empty_trash : forall d s s' r,
+  sql s = [] -> DI s -> exec_op shipped (Purge d) s = (s', r) -> honest s s' r ->
+  (forall x, fget x (fs (after_empty s')) <> None ->
+     mem x (loc (cur (after_empty s'))) = true /\ mem x (ds (cur (after_empty s'))) = true /\ mem x (recs (cur (after_empty s'))) = true) /\
+  ((cur s' = cur s /\ fs s' = fs s) \/ (mem d (ds (cur s')) = false /\ fget d (fs (after_empty s')) = None)).
+Proof. exact purge_leftovers_p. Qed.
+Print Assumptions leftovers_collected_by_empty_trash.
+
+Theorem unstore_leftovers_collected_by_empty_trash : forall d s s' r,
+  sql s = [] -> DI s -> exec_op shipped (Unstore d) s = (s', r) -> honest s s' r ->
+  forall x, fget x (fs (after_empty s')) <> None ->
+     mem x (loc (cur (after_empty s'))) = true /\ mem x (ds (cur (after_empty s'))) = true /\ mem x (recs (cur (after_empty s'))) = true.
+Proof. exact unstore_leftovers_p. Qed.
+Print Assumptions unstore_leftovers_collected_by_empty_trash.
+
+(* the guard excludes exactly the runs of the two refutations above (j = 4, j = 8 on s_one) *)
+Theorem leftovers_guard_excludes_the_swallowed_errors :
+  (let '(s', r) := exec_op shipped (Purge 1) (with_fuse 4 s_one) in ~ honest (with_fuse 4 s_one) s' r) /\
+  (let '(s', r) := exec_op shipped (Purge 1) (with_fuse 8 s_one) in ~ honest (with_fuse 8 s_one) s' r).
+Proof. exact swallowed_not_honest_p. Qed.
+Print Assumptions leftovers_guard_excludes_the_swallowed_errors.
+
+(* Part 3 -- DI is not only a premise: it holds after EVERY committed history of top-level operations (puts, ingests,
+   registry operations, removals; each run fault-free, failures ignored) from the empty repository -- the pre-histories
+   of the correspondence (Proofs/TxnProofsLo3.v).  Top s = DI s, no SQL block, no datastore transaction, fuse spent. *)
+Theorem fault_free_operation_keeps_invariant : forall o s s' r, Top s -> exec_op shipped o s = (s', r) -> Top s'.
+Proof. exact op_nofault_Top. Qed.
+Print Assumptions fault_free_operation_keeps_invariant.
+
+Theorem datastore_invariant_reachable : forall e ops, DI (run_ops ops (init e)) /\ sql (run_ops ops (init e)) = [].
+Proof. exact DI_reachable_p. Qed.
+Print Assumptions datastore_invariant_reachable.
+
+(* once the (single) fault has fired, or when none is armed, no boundary of any operation fires *)
+Theorem spent_fuse_stays_spent : forall o s s' r, exec_op shipped o s = (s', r) -> fuse s = None -> fuse s' = None.
+Proof. exact FMo_exec_op. Qed.
+Print Assumptions spent_fuse_stays_spent.
+
+(* exactly the runs of the correspondence whose program is a top-level removal: committed history of operations, then
+   the removal with the fault armed at ANY boundary j, ordinary or BaseException -- no invariant premise left *)
+Theorem reachable_removal_leftovers_collected : forall e ops d j h s' r,
+  exec_op shipped (Purge d) (armed (run_ops ops (init e)) j h) = (s', r) -> honest (armed (run_ops ops (init e)) j h) s' r ->
+  (forall x, fget x (fs (after_empty s')) <> None ->
+     mem x (loc (cur (after_empty s'))) = true /\ mem x (ds (cur (after_empty s'))) = true /\ mem x (recs (cur (after_empty s'))) = true) /\
+  ((cur s' = cur (run_ops ops (init e)) /\ fs s' = fs (run_ops ops (init e))) \/
+   (mem d (ds (cur s')) = false /\ fget d (fs (after_empty s')) = None)).
+Proof. exact reachable_purge_leftovers_p. Qed.
+Print Assumptions reachable_removal_leftovers_collected.
+
+Theorem reachable_unstore_leftovers_collected : forall e ops d j h s' r,
+  exec_op shipped (Unstore d) (armed (run_ops ops (init e)) j h) = (s', r) -> honest (armed (run_ops ops (init e)) j h) s' r ->
+  forall x, fget x (fs (after_empty s')) <> None ->
+     mem x (loc (cur (after_empty s'))) = true /\ mem x (ds (cur (after_empty s'))) = true /\ mem x (recs (cur (after_empty s'))) = true.
+Proof. exact reachable_unstore_leftovers_p. Qed.
+Print Assumptions reachable_unstore_leftovers_collected.
+
 (* non-vacuity: the hypotheses are satisfiable by reachable, non-trivial runs *)
 Example block_raises_after_work :
   let '(s', r) := exec shipped (PBlock [POp (Put 0 1); POp (Ingest Move 2); POp (Assoc 0); PFail]) s_one in
@@ -269,3 +400,24 @@ Example staging_list_order_changes :
   let '(s', r) := exec shipped (PBlock [POp (Ingest Move 2); PFail]) s_one in
   r = Raised false /\ cfault s' = false /\ ext s' <> ext s_one /\ fvec (ext s') = fvec (ext s_one).
 Proof. exact ext_literal_differs_p. Qed.
+
+(* the removal-side hypotheses are satisfiable: the empty repository and s_one satisfy DI at top level; a purge that
+   FAILS after the registry removal committed (fault at the first boundary of its emptyTrash) is honest, and its
+   leftover artifact is collected *)
+Example DI_init_example : forall e, DI (init e).
+Proof. exact DI_init. Qed.
+
+Example DI_s_one_example : DI s_one /\ sql s_one = [].
+Proof. exact DI_s_one. Qed.
+
+Example failing_purge_is_honest_and_collected :
+  let '(s', r) := exec_op shipped (Purge 1) (with_fuse 7 s_one) in
+  r = Raised false /\ fuse s' = None /\ ds (cur s') = [] /\ fget 1 (fs s') = Some 2 /\ fget 1 (fs (after_empty s')) = None.
+Proof. vm_compute. repeat split. Qed.
+
+(* a reachable state with several stored / tagged / trashed datasets, and a purge failing in the middle of its emptyTrash
+   (hard fault at the second artifact deletion): honest, invariant kept, both leftovers collected afterwards *)
+Example reachable_many_datasets :
+  let s := run_ops [Put 0 1; Put 1 2; Ingest Move 2; Put 3 4; Assoc 1; Cert 1; Unstore 3; Purge 2] (init e0) in
+  ds (cur s) = [3; 1; 0] /\ loc (cur s) = [1; 0] /\ fvec (fs s) = [2; 3; 0; 0].
+Proof. vm_compute. repeat split. Qed.
